@@ -6,7 +6,8 @@
                    conv : CG (m,s) -> [0;m;s] | C1 -> [1;0;0]
      rest : [0] when read_meta_data raises, else
             1 :: enc(dict) ++ enc_str(write text) ++ [re-read equal?]
-              ++ version ++ type ++ nchannels ++ sync ++ fs ++ ns ++ maxint ++ sample2volts-selector *)
+              ++ version ++ type ++ nchannels ++ sync ++ fs ++ ns ++ maxint ++ sample2volts-selector
+              ++ major version ++ analog sync (count, first index when count > 0) *)
 From Coq Require Import ZArith List Bool.
 From IBL.lib Require Import PyInt RunLib.
 From IBL.C09 Require Import Model.
@@ -53,7 +54,9 @@ Definition enc_derived (d : dict) : list Z :=
   ++ enc_zopt (get_ns d)
   ++ enc_zopt (max_int d)
   ++ match sample2volts d with
-     | None => [0] | Some (_, _, l) => [1; Z.of_nat (length l)] end.
+     | None => [0] | Some (_, _, l) => [1; Z.of_nat (length l)] end
+  ++ enc_option (fun m => [match m with MJ1 => 1 | MJ2 => 2 | MJ24 => 3 | MJultra => 4 end]) (major_version d)
+  ++ enc_option (fun p => [snd p; if 0 <? snd p then fst p else 0]) (analog_sync d).
 
 Definition run (inp : list Z) : list Z :=
   match read_meta inp with
